@@ -31,6 +31,12 @@ pub struct Scn {
 }
 pub struct C25;
 
+/// Stack the parser may use between its shallowest and deepest file-system call. Nesting is
+/// limited to 16 files; a frame of `fs::Parser::next` plus the record parser below it is a few
+/// hundred octets, so 64 KiB is generous - and far below what a stack that grows with the *number*
+/// of includes needs for a few hundred of them.
+const STACK_BOUND: usize = 64 << 10;
+
 const DIRS: &[&str] = &["/zones", "/zones/sub", "/zones/sub/deep", "/other"];
 const ORIGINS: &[&str] = &["example.", "sub.example.", "other.test.", "deep.sub.example."];
 
@@ -147,6 +153,28 @@ impl Prop for C25 {
             let i = range(r, 1, nfiles as u64 - 1) as usize;
             files[i].fault = range(r, 1, 3) as u8;
             files[i].at = range(r, 0, 120) as usize;
+        }
+        if chance(r, 2) {
+            // many *consecutive* includes of files that hold no record (comments, blank lines, a
+            // directive): textual inclusion yields nothing for them; the parser must get through
+            // them in bounded stack, however many there are
+            // (at most 200: a parser whose stack grows with their number must be reported, not crash the check)
+            let k = *pick(r, &[40usize, 100, 200, 200]);
+            let empty = match r.below(3) {
+                0 => vec![],
+                1 => vec!["; nothing here".to_string(), String::new()],
+                _ => vec![format!("$ORIGIN {}", pick(r, ORIGINS)), "; only a directive".to_string()],
+            };
+            let mut lines = vec![format!("$ORIGIN {}", ORIGINS[0]), "$TTL 300".to_string(), "@ IN SOA ns hostmaster 1 60 60 60 60".to_string()];
+            for i in 0..k {
+                lines.push(if i % 7 == 3 { format!("$INCLUDE e.zone {}", pick(r, ORIGINS)) } else { "$INCLUDE e.zone".to_string() });
+            }
+            lines.push("tail A 192.0.2.1".to_string());
+            let files = vec![
+                FileSpec { path: format!("{}/f0.zone", DIRS[0]), lines, fault: 0, at: 0 },
+                FileSpec { path: format!("{}/e.zone", DIRS[0]), lines: empty, fault: 0, at: 0 },
+            ];
+            return Scn { files, max_depth: *pick(r, &[1usize, 4, 16]), short_reads: chance(r, 30) };
         }
         Scn { files, max_depth: *pick(r, &[0usize, 1, 2, 3, 4, 4, 16]), short_reads: chance(r, 30) }
     }
@@ -398,6 +426,7 @@ fn run(scn: &Scn) {
         }
     };
     let mut after_error = 0;
+    fs::reset_stack_extent();
     for item in parser {
         if got_err.is_some() {
             after_error += 1;
@@ -410,6 +439,18 @@ fn run(scn: &Scn) {
     }
     if after_error > 0 {
         viol("items-after-error", format!("{after_error} items yielded after the first error"));
+    }
+    // stack used by the parser, as seen from the file-system seam at the bottom of its call chains
+    let includes = scn.files[0].lines.iter().filter(|l| l.to_ascii_uppercase().starts_with("$INCLUDE")).count();
+    let extent = fs::stack_extent();
+    if std::env::var_os("VERIF_C25_STACK").is_some() {
+        eprintln!("c25 stack extent {extent} octets for {includes} include lines in the root, max_depth {}", scn.max_depth);
+    }
+    if includes >= 40 {
+        simrt::probe("c25_many_consecutive_includes");
+        if extent > STACK_BOUND {
+            viol("stack-grows-with-number-of-includes", format!("{extent} octets of stack between the shallowest and the deepest file-system call while parsing a root file with {includes} consecutive $INCLUDEs of a record-less file (nesting limit {}); bound {STACK_BOUND}", scn.max_depth));
+        }
     }
     if upper.iter().any(|r| r.0 != root) && got.len() == upper.len() {
         simrt::probe("c25_context_inherited_record");
